@@ -117,6 +117,7 @@ func modDefault(ctx *Ctx, buf *any, val any, args []any) (err error) {
 	}
 	if len(args) == 0 {
 		err = ErrModPoorArgs
+		return
 	}
 
 	// Implement default mod logic.
